@@ -2,16 +2,16 @@ HOOKS = {
     "guard": "OISF_LIBHTP_VERIF",
     "enable": "tools/vbuild.py compiles /repo/htp/*.c and /repo/htp/lzma/*.c with -DOISF_LIBHTP_VERIF (see /verif/Makefile, CDEFS)",
     "baseline_off_cmd": "make -C /repo -j16 check",
-    "source_commits": [],
+    "source_commits": ["d6504d6"],
     "add_only": True,
 }
 NOTES = ("All checks are generated-input search against an explicit oracle (rapidcheck generators with shrinking, exhaustive bounded "
          "enumeration, libFuzzer with in-target oracles, allocation-fault enumeration). ./check <id> rebuilds libhtp from /repo's working "
          "tree by content hash before every run. Known findings: /verif/known_findings.json. Design: /verif/DESIGN.md.")
 ENGINES = [
-    {"name": "rapidcheck", "path": "/verif/harness/rcx.hpp", "serves_properties": ["C17"], "kind_free_text": "property-based testing with integrated shrinking"},
+    {"name": "rapidcheck", "path": "/verif/harness/rcx.hpp", "serves_properties": ["C12", "C13", "C14", "C15", "C17"], "kind_free_text": "property-based testing with integrated shrinking"},
     {"name": "libFuzzer", "path": "/verif/fuzz/fuzz_stream.cpp", "serves_properties": ["C01", "C05", "C06", "C09", "C10"], "kind_free_text": "coverage-guided fuzzing, structure-aware decode, in-target oracles"},
-    {"name": "enumerators", "path": "/verif/checks", "serves_properties": ["C17"], "kind_free_text": "exhaustive bounded enumeration, shortest first, sharded over 16 processes"},
+    {"name": "enumerators", "path": "/verif/checks", "serves_properties": ["C12", "C13", "C15", "C17"], "kind_free_text": "exhaustive bounded enumeration, shortest first, sharded over 16 processes"},
 ]
 NOT_APPLICABLE = {}
 _FZ_NOTE = ("Trusted: the vdrv driver and its monitors (harness/vdrv.cpp), ASan/UBSan/LSan, libFuzzer. Coverage-guided search is not exhaustive and only "
@@ -44,6 +44,30 @@ META = {
         technique="coverage-guided fuzzing with an in-target retention monitor reading the parser's private buffer sizes after every call under generated field limits and max_tx",
         level_text=("Buffered bytes never exceed the configured hard limit and the transaction list never exceeds max_tx+1 on any generated history. Exploration."),
         design_ref="DESIGN.md section 3, C10", level_note=_FZ_NOTE),
+    "C12": dict(
+        engine="exhaustive enumeration + rapidcheck vs reference model",
+        technique="exhaustive small-alphabet enumeration x full decoder-configuration lattice compared with an independent tokenise-then-map reference model (differential oracle), plus rapidcheck random strings and the personalities through the public route",
+        level_text=("Every string over a 14-byte adversarial alphabet up to length 4/5 under all 768 decoder configurations, and all short token sequences, give exactly the "
+                    "path and anomaly flags of the documented pipeline; normalised paths never grow, contain no dot segment and are idempotent. Exhaustive within the "
+                    "stated bounds, sampled beyond."),
+        design_ref="DESIGN.md section 3, C12",
+        level_note="Trusted: the reference model harness/refdec.hpp (pinned to observed behaviour where htp_config.h is silent; pins listed in evidence), the configuration read back from htp_cfg_t."),
+    "C13": dict(
+        engine="exhaustive enumeration + rapidcheck, validity predicate",
+        technique="exhaustive enumeration of targets over a 12-symbol alphabet checked with a re-join validity predicate (round-trip), plus rapidcheck random/public-route targets",
+        level_text=("For every target over {a : / @ ? # [ ] . 0 9 SP} up to length 7/8 the reported components re-join to the target, path-form targets get no authority, "
+                    "and the numeric port follows the 1..65535 rule. Exhaustive within the bound; longer and arbitrary-byte targets sampled."),
+        design_ref="DESIGN.md section 3, C13", level_note="Trusted: the re-join predicate in checks/c13.cpp; the request-line route is sampled only."),
+    "C14": dict(
+        engine="rapidcheck generator + AST oracle + chunking metamorphic relation",
+        technique="property-based testing: rapidcheck-generated multipart ASTs serialised to wire bytes; round-trip oracle (parts == AST) and metamorphic oracle (every single cut / 1-byte / random multi-cut == single call) with shrinking",
+        level_text=("Thousands of generated bodies, each under every single cut, reproduce their parts byte-for-byte and report identical parts and flags for every chunking. Exploration."),
+        design_ref="DESIGN.md section 3, C14", level_note="Trusted: the serializer/expectation in checks/c14.cpp; domain excludes content that contains the full delimiter after an LF."),
+    "C15": dict(
+        engine="exhaustive enumeration + rapidcheck vs reference rule",
+        technique="exhaustive enumeration over a 7-symbol alphabet x every single cut x 48 decoder configurations against the reference split rule and reference decoder; rapidcheck multi-cuts; end-to-end POSTs",
+        level_text=("Every string up to length 6/7 under every single cut and all 48 configurations yields exactly the reference pairs and anomaly flags. Exhaustive within bounds."),
+        design_ref="DESIGN.md section 3, C15", level_note="Trusted: reference split rule in checks/c15.cpp and the reference decoder harness/refdec.hpp."),
     "C17": dict(
         engine="rapidcheck + exhaustive enumeration",
         technique="model-based property testing (rapidcheck op sequences vs std::deque / ordered multimap models) + exhaustive small-alphabet argument enumeration vs naive references + boundary-value digit strings vs __int128",
